@@ -326,6 +326,17 @@ Proof. intros w h comps P [H|H]; subst comps; reflexivity. Qed.
 Lemma sos_len : forall comps pred, comps = 1 \/ comps = 3 -> zlen (sos_data comps pred) = 4 + 2 * comps.
 Proof. intros comps pred [H|H]; subst comps; reflexivity. Qed.
 
+Lemma zsum_bound : forall l, Forall (fun b => 0 <= b < 256) l -> 0 <= zsum l <= 255 * zlen l.
+Proof.
+  induction l; intros F; [cbn; lia|]. inversion F; subst. specialize (IHl H2).
+  unfold zsum, zlen in *. cbn [fold_right length]. lia.
+Qed.
+Lemma dht_len : forall bits vals, table_facts bits vals -> zlen (0 :: bits ++ vals) + 2 < 65536.
+Proof.
+  intros bits vals [Fl Fb Fs Fv Fn Ff]. pose proof (zsum_bound bits Fb) as Hb.
+  unfold zlen in *. cbn [length]. rewrite app_length. rewrite Fl in *. lia.
+Qed.
+
 Lemma jll_decode_soi : forall rest,
   jll_decode (be16 M_SOI ++ rest) = ll_loop (S (S (length rest))) rest d_init.
 Proof.
@@ -371,5 +382,34 @@ Proof.
   destruct Hfuel as [f Hf]. rewrite Hf. unfold rest.
   rewrite ll_step_app0 by (vm_compute; reflexivity).
   rewrite ll_step_sof3 by (rewrite sof3_len by assumption; lia).
-  rewrite parse_sof3_ok by assumption. cbn [obind d_init d_pred d_tabs d_sels]. Show.
-Abort.
+  rewrite parse_sof3_ok by assumption. cbn [obind d_init d_pred d_tabs d_sels].
+  rewrite dht_data_ok by assumption.
+  rewrite ll_step_dht by (pose proof (dht_len bits vals F); lia).
+  rewrite (parse_dht_ok bits vals (ht_of bits vals)) by assumption.
+  cbn [obind d_w d_h d_comps d_P d_pred d_tabs d_sels].
+  change (zupd [None; None; None; None] 0 (Some (ht_of bits vals)))
+    with [Some (ht_of bits vals); None; None; None].
+  rewrite ll_step_sos by (rewrite sos_len by assumption; lia).
+  rewrite parse_sos_ok by assumption. cbn [obind].
+  (* the scan *)
+  unfold ll_decode_scan. cbn [d_w d_h d_comps d_P d_pred].
+  change (be16 M_EOI) with [255; 217]. rewrite ll_extract_stuff by assumption.
+  unfold dec_image.
+  assert (Htabs : ll_tabs (mkD w h comps P pred [Some (ht_of bits vals); None; None; None] [0; 0; 0])
+                  = tabs bits vals (Z.to_nat comps)).
+  { unfold ll_tabs, tabs. cbn [d_comps d_sels d_tabs]. destruct Hc; subst comps; reflexivity. }
+  rewrite Htabs. unfold tabs at 1. rewrite repeat_length.
+  pose proof (repeat_goodpx P (Z.to_nat comps) ltac:(lia)) as Gd.
+  destruct (dec_rows_ok bits vals Hok P (ll_pred pred (2 ^ (P - 1))) recon16
+              (fun r c l a al x _ _ _ Hx => diff_reconstruct P x _ HP Hx)
+              rows (repeat (repeat 0 (Z.to_nat comps)) (Z.to_nat w)) (repeat 0 (Z.to_nat comps))
+              (Z.to_nat comps) (Z.to_nat w) (r_init (stuff bs)) pad true)
+    as (st' & Edec & _).
+  - exact Hrows.
+  - apply repeat_length.
+  - apply Forall_forall. intros x Hx. apply repeat_spec in Hx. subst x. exact Gd.
+  - exact Gd.
+  - exact Hdok.
+  - rewrite <- E3. rewrite <- (app_nil_r (stuff bs)). apply rep_init. exact E2.
+  - rewrite <- Hlen. rewrite Edec. reflexivity.
+Qed.
